@@ -33,7 +33,7 @@ COMPONENTS = {
              'hooks, responder, failing media handler / render_body'],
 }
 EXPECTED_PROBES = ('pre_request', 'hostile_str', 'raised_in_mw', 'raised_in_hook', 'raised_in_responder', 'raised_in_response_mw',
-                   'raised_in_render', 'default_http_handler', 'default_status_handler',
+                   'raised_in_render', 'error_document_serializer_failed', 'default_http_handler', 'default_status_handler',
                    'default_python_handler', 'custom_handler', 'handler_raised_http', 'handler_raised_status',
                    'xml_body', 'json_body', 'custom_media_body', 'no_body_negotiated', 'multi_inheritance')
 ASSUMPTIONS = (
@@ -225,6 +225,11 @@ def run(ctx):
     accept = ch.choice(ACCEPTS, 'accept')
     xml_on = bool(ch.draw(2, 'xml_on'))
     custom_on = bool(ch.draw(2, 'custom_on'))
+    # the configured media type is served either by a plain BaseHandler subclass or by the stock
+    # JSONHandler with a custom dumps (which has the optimised sync protocol); in the second form
+    # the serializer may fail whenever it is asked to render a document (fault)
+    custom_fast = bool(ch.draw(2, 'custom_handler_is_jsonhandler')) if custom_on else False
+    doc_fail = custom_fast and ch.draw(5, 'document_serializer_fails') == 4
     asgi = bool(ch.draw(2, 'asgi'))
     plan = gen_stack(ch, max_components=2)
     plan['routed'] = True
@@ -277,7 +282,8 @@ def run(ctx):
             raise_site = s
     ctx.plan = {'classes': spec, 'registrations': regs, 'behaviours': behaviours, 'raise': raise_cls,
                 'raise_site': raise_site, 'err': err_args, 'status': st_args, 'accept': accept,
-                'xml': xml_on, 'custom_media': custom_on, 'asgi': asgi, 'stack': plan,
+                'xml': xml_on, 'custom_media': custom_on, 'custom_fast': custom_fast, 'doc_fail': doc_fail,
+                'asgi': asgi, 'stack': plan,
                 'render_kind': render_kind, 'pre_vary': pre_vary, 'hostile_str': hostile,
                 'pre_request': pre_kind, 'unreadable_body': unreadable, 'stale_kind': stale_kind,
                 'stale_stream': stale_stream}
@@ -367,7 +373,15 @@ def run(ctx):
             app.add_route('/pre', Pre())
             st.add_lane('P', [], [], lambda site: None)
         app.resp_options.xml_error_serialization = xml_on
-        if custom_on:
+        if custom_fast:
+            def custom_dumps(m):
+                if doc_fail and raised.get('armed'):
+                    raised['doc'] = raised.get('doc', 0) + 1
+                    raise RuntimeError('the document serializer failed')
+                return 'CUSTOM:' + json.dumps(m, sort_keys=True)
+            app.resp_options.media_handlers['application/x-custom'] = falcon.media.JSONHandler(dumps=custom_dumps)
+            raised['armed'] = True       # JSONHandler probes dumps() once when it is constructed
+        elif custom_on:
             app.resp_options.media_handlers['application/x-custom'] = CustomHandler()
         for k, cl in regs:
             target = tuple(ns[c] for c in cl) if len(cl) > 1 else ns[cl[0]]
@@ -455,7 +469,20 @@ def run(ctx):
         except Exception:
             shown = '<%s with a broken __repr__>' % type(app_exc).__name__
         ctx.violate('errors.escaped', 'exception %s escaped the app callable (raised %s at %s)' % (
-            shown, raise_cls, raise_site), site=sk, stack=stack)
+            shown, raise_cls, raise_site), site=sk, stack=stack, doc_fault=bool(raised.get('doc')))
+        return
+    if raised.get('doc'):
+        # the serializer of the negotiated error document raised: "any other Exception" -> 500
+        ctx.probe('error_document_serializer_failed')
+        ctx.ch.note_fired('document_serializer_raises')
+        ctx.nontrivial = True
+        ctx.ops_done = 1
+        # (a second failure inside the render window itself only has to stay inside the app:
+        # the framework then sends the first error's status with an empty body)
+        generic_custom = any('Exception' in cl for _k, cl in regs)   # RuntimeError's handler is the app's own
+        if status != 500 and raise_site != 'render' and not generic_custom:
+            ctx.violate('errors.rendering.status', 'the serializer of the error document raised; status is %r, '
+                        'not 500' % (status,), kind='doc_fault', stack=stack)
         return
     if raise_site is None or 'site' not in raised:
         if status != 200:
